@@ -50,8 +50,16 @@ def h_pdf(h):
     model, dims = build_model(h, struct, rot=h.cfg["rot"])
     kind = h.cfg["input"]
     nrows = 2 if kind == "array2" else 1
-    rows = [[h.real(f"x{r}_{i}", 0.1, 7.0) for i in range(nd)] for r in range(nrows)]
-    if kind == "row":
+    if kind.startswith("int"):
+        # integer-typed evaluation points (model.pdf([2, 6]), an integer grid): same density as at 2.0, 6.0
+        nrows = 2 if kind == "intarray2" else 1
+        rows = [[2, 6, 3, 5][:nd], [4, 1, 2, 3][:nd]][:nrows]
+        x = list(rows[0]) if kind == "intlist" else np.array(rows)
+    else:
+        rows = [[h.real(f"x{r}_{i}", 0.1, 7.0) for i in range(nd)] for r in range(nrows)]
+    if kind.startswith("int"):
+        pass
+    elif kind == "row":
         x = h.arr(rows[0])
     elif kind == "list":
         x = list(rows[0])
@@ -96,8 +104,12 @@ def h_marginal(h):
     struct = parse_skey(h.cfg["struct"])
     nd, dim, which = len(struct), h.cfg["dim"], h.cfg["which"]
     model, dims = build_model(h, struct, rot=h.cfg["rot"])
-    xs = [h.real(f"x{k}", 0.5, 7.0) for k in range(2)]
-    x = h.arr(xs)
+    if h.cfg.get("int"):
+        xs = [2, 5]                  # integer-typed abscissae
+        x = np.array(xs)
+    else:
+        xs = [h.real(f"x{k}", 0.5, 7.0) for k in range(2)]
+        x = h.arr(xs)
     probe = stubs.NquadProbe(h)
     with stubs.patch_attr(shim.mod("jointmodels"), "integrate", stubs.IntegrateProxy(probe)):
         got = getattr(model, "marginal_" + which)(x, dim)
@@ -210,13 +222,14 @@ def obligations(tier):
         rots = (0, 2) if tier == "quick" else (range(7) if nd <= 3 else (0, 3))
         for st in structures(nd):
             for rot in rots:
-                for inp in ("row", "list", "array2"):
+                for inp in ("row", "list", "array2", "intlist", "intarray2"):
                     yield ("pdf", h_pdf, {"struct": skey(st), "rot": rot, "input": inp}, {})
                 for rows in (1, 2):
                     yield ("cdf", h_cdf, {"struct": skey(st), "rot": rot, "rows": rows}, {})
                 for dim in range(nd):
                     for which in ("pdf", "cdf"):
                         yield ("marginal", h_marginal, {"struct": skey(st), "rot": rot, "dim": dim, "which": which}, {})
+                        yield ("marginal", h_marginal, {"struct": skey(st), "rot": rot, "dim": dim, "which": which, "int": True}, {})
                     if rot == rots[0] if not isinstance(rots, range) else rot == 0:
                         for pf in (1, 0.05):
                             yield ("marginal_icdf", h_marginal_icdf, {"struct": skey(st), "rot": rot, "dim": dim, "pf": pf}, {})
